@@ -15,14 +15,25 @@
 (*   Reported  - the operation hit by the fault reports an error;          *)
 (*   Dur       - after a fault, a reopen finds every acknowledged update:  *)
 (*               each leaf / mark / metadata is the acknowledged value or  *)
-(*               the value the failed operation intended.                  *)
+(*               the value the failed operation intended;                  *)
+(*   CrashDur  - the process may die at ANY storage step (crash point):    *)
+(*               writes go to the store's log (`unflushed`) and reach the  *)
+(*               disk at a flush; a crash keeps a PREFIX of the unflushed  *)
+(*               log (assumption about the log-structured store) and       *)
+(*               loses the rest.  What a reopen then finds is, per         *)
+(*               position, a value of some state acknowledged since the    *)
+(*               last successful flush (or intended by the call in         *)
+(*               flight) - in particular exactly the flushed state when    *)
+(*               the crash comes right after a flush.                      *)
 (***************************************************************************)
 EXTENDS TreeOps
 
 CONSTANTS D,        \* depth
           Vals,     \* leaf values
           MaxOps,   \* operations per history
-          MaxBatch  \* longest range write
+          MaxBatch, \* longest range write
+          Variant   \* "none", or a named faulty variant that TLC must refute (vacuity control):
+                    \*   "lazy-flush" = the flush is skipped when only batch writes happened since the last one (seeded C16-m4)
 
 Cap == Pow2(D)
 
@@ -31,8 +42,12 @@ VARIABLES db,       \* durable key -> value (partial function)
           ideal,    \* acknowledged ideal state [t : TreeOps state, meta]
           plan,     \* remaining storage steps of the operation in progress
           cur,      \* operation in progress: [name, post (intended ideal), memnext, memroot]
-          nops, faultAt, wcount, failed, lastRes
-vars == <<db, mem, ideal, plan, cur, nops, faultAt, wcount, failed, lastRes>>
+          nops, faultAt, wcount, failed, lastRes,
+          disk,     \* what has reached the disk (db = disk + unflushed log, as the live instance sees it)
+          unflushed,\* the store's log since the last flush: sequence of write steps (each a sequence of key-values)
+          since,    \* the ideal states acknowledged since (and including) the last successful flush
+          crashed
+vars == <<db, mem, ideal, plan, cur, nops, faultAt, wcount, failed, lastRes, disk, unflushed, since, crashed>>
 
 Get(d, k, dflt) == IF k \in DOMAIN d THEN d[k] ELSE dflt
 PutK(d, k, v) == [x \in DOMAIN d \cup {k} |-> IF x = k THEN v ELSE d[x]]
@@ -81,14 +96,14 @@ RangePlan(s, vs) ==
 
 
 \* ---- start of an operation: fix its plan and its intended ideal post-state ----
-Idle == cur.name = "none" /\ ~failed
+Idle == cur.name = "none" /\ ~failed /\ ~crashed
 NoOp == [name |-> "none", post |-> [t |-> Empty, meta |-> "none"]]
 Begin(name, p, postT, postMeta) ==
   /\ Idle /\ nops < MaxOps
   /\ plan' = p
   /\ cur' = [name |-> name, post |-> [t |-> postT, meta |-> postMeta]]
   /\ nops' = nops + 1
-  /\ UNCHANGED <<db, mem, ideal, faultAt, wcount, failed, lastRes>>
+  /\ UNCHANGED <<db, mem, ideal, faultAt, wcount, failed, lastRes, disk, unflushed, since, crashed>>
 
 StartSet == \E i \in 0..(Cap - 1), v \in Vals :
   Begin("set", SetPlan(i, v), SetF(D, ideal.t, i, v).st, ideal.meta)
@@ -110,13 +125,20 @@ MemAfter(kvs) ==
       next |-> IF nexts = {} THEN mem.next ELSE kvs[CHOOSE k \in nexts : TRUE].v]
 
 Step ==
-  /\ cur.name # "none" /\ plan # <<>>
+  /\ cur.name # "none" /\ plan # <<>> /\ ~crashed
   /\ wcount' = wcount + 1
+  /\ crashed' = crashed
   /\ IF wcount + 1 = faultAt
      THEN \* the storage call returns an error, nothing is written, the operation aborts and reports it
           /\ failed' = TRUE /\ lastRes' = "err" /\ plan' = <<>>
-          /\ UNCHANGED <<db, mem, ideal, cur>>
+          /\ UNCHANGED <<db, mem, ideal, cur, disk, unflushed, since>>
      ELSE /\ db' = PutAll(db, Head(plan).kvs)
+          /\ IF Head(plan).kind = "flush" /\ ~(Variant = "lazy-flush" /\ unflushed # <<>> /\ \A k \in 1..Len(unflushed) : Len(unflushed[k]) > 1)
+             THEN disk' = db /\ unflushed' = <<>>
+             ELSE IF Head(plan).kind = "flush" THEN UNCHANGED <<disk, unflushed>>
+             ELSE disk' = disk /\ unflushed' = Append(unflushed, Head(plan).kvs)
+          /\ since' = (IF Len(plan) # 1 THEN since
+                       ELSE IF cur.name = "flush" THEN {cur.post} ELSE since \cup {cur.post})
           /\ mem' = MemAfter(Head(plan).kvs)
           /\ plan' = Tail(plan)
           /\ IF Len(plan) = 1
@@ -132,8 +154,20 @@ Init ==
   /\ plan = <<>> /\ cur = NoOp /\ nops = 0
   /\ faultAt \in 0..(MaxOps * (D + 3))          \* 0 = no fault; every position of every history
   /\ wcount = 0 /\ failed = FALSE /\ lastRes = "none"
+  /\ disk = (NextKey :> 0) /\ unflushed = <<>> /\ since = {[t |-> Empty, meta |-> "none"]} /\ crashed = FALSE
 
-Next == StartSet \/ StartDelete \/ StartAppend \/ StartRange \/ StartMeta \/ StartFlush \/ Step
+\* ---- crash point: the process dies before / between / inside storage steps ----
+RECURSIVE ApplyLog(_, _)
+ApplyLog(d, lg) == IF lg = <<>> THEN d ELSE ApplyLog(PutAll(d, Head(lg)), Tail(lg))
+Crash ==
+  /\ ~crashed /\ ~failed
+  /\ \E k \in 0..Len(unflushed) :
+       /\ disk' = ApplyLog(disk, SubSeq(unflushed, 1, k))
+       /\ db' = disk'
+  /\ crashed' = TRUE /\ unflushed' = <<>> /\ plan' = <<>>
+  /\ UNCHANGED <<mem, ideal, cur, nops, faultAt, wcount, failed, lastRes, since>>
+
+Next == StartSet \/ StartDelete \/ StartAppend \/ StartRange \/ StartMeta \/ StartFlush \/ Step \/ Crash
 Spec == Init /\ [][Next]_vars
 
 -----------------------------------------------------------------------------
@@ -146,7 +180,7 @@ Loaded == [leaf |-> [i \in 0..(Cap - 1) |-> DbLeaf(db, i)],
 Quiescent == cur.name = "none"
 
 Durable ==
-  (Quiescent /\ ~failed) =>
+  (Quiescent /\ ~failed /\ ~crashed) =>
      /\ \A i \in 0..(Cap - 1) : Loaded.leaf[i] = Lf(ideal.t, i)
      /\ Loaded.next = ideal.t.next
      /\ Loaded.meta = ideal.meta
@@ -162,6 +196,17 @@ Dur ==
      /\ \A i \in 0..(Cap - 1) : Loaded.leaf[i] \in {Lf(ideal.t, i), Lf(cur.post.t, i)}
      /\ Loaded.next \in {ideal.t.next, cur.post.t.next}
      /\ Loaded.meta \in {ideal.meta, cur.post.meta}
+
+\* crash points: what a reopen finds was acknowledged since the last successful flush (or intended by the call in flight)
+CrashAlts == since \cup (IF cur.name # "none" THEN {cur.post} ELSE {})
+CrashDur ==
+  crashed =>
+     /\ \A i \in 0..(Cap - 1) : Loaded.leaf[i] \in {Lf(s.t, i) : s \in CrashAlts}
+     /\ Loaded.next \in {s.t.next : s \in CrashAlts}
+     /\ Loaded.meta \in {s.meta : s \in CrashAlts}
+\* ... and a successful flush is a barrier: nothing acknowledged before it can be lost afterwards
+FlushBarrier ==
+  (Quiescent /\ ~failed /\ ~crashed /\ unflushed = <<>>) => (disk = db /\ since = {ideal})
 
 \* recorded for the reader: after a fault the loaded ROOT may be stale w.r.t. the loaded leaves
 \* (fault between the leaf write and the root write); the property allows it, so this is not an invariant.
